@@ -504,6 +504,91 @@ def _c12_enumerated_world(seed, idx):
     return w
 
 
+_C18_TEMPLATES = []
+
+
+def c18_templates():
+    """Model templates of C18's enumerated block: every chain template, direct splines (five intervals, both
+    orientations), the flow factories that can run here (three spline intervals, both orientations), planar, the scanned
+    spline, block autoregressive networks (four activations), the triangular-spline layer (three switch points), and
+    the named families."""
+    if _C18_TEMPLATES:
+        return _C18_TEMPLATES
+    T = _C18_TEMPLATES
+    seen = []
+    for items in CHAINS + LT_CHAINS:
+        if items not in seen:
+            seen.append(items)
+            T.append({"kind": "chain", "dim": 2, "items": copy.deepcopy(items)})
+    for items in LT_CHAINS[:4]:
+        for mv in (1.0, 8.0, 12.0):
+            T.append({"kind": "chain", "dim": 1, "items": [[it[0], mv] if it[0] in ("LeakyTanh", "InvLeakyTanh") else list(it) for it in items]})
+    for iv in ([-4.0, 4.0], [-1.0, 3.0], [0.5, 2.0], [-3.0, -0.5], [-6.0, 6.0]):
+        for inv in (False, True):
+            T.append({"kind": "vspline", "dim": 2, "knots": 3, "interval": iv, "min_derivative": 1e-3, "softmax_adjust": 1e-2, "invert": inv})
+    for flow in ("maf", "coupling"):
+        for iv in ([-4.0, 4.0], [0.5, 2.0], [-3.0, -0.5]):
+            for inv in (False, True):
+                T.append({"kind": "flow", "flow": flow, "dim": 2, "cond_dim": None, "layers": 2, "invert": inv, "transformer": "spline", "width": 3, "depth": 1,
+                          "knots": 3, "interval": iv, "min_derivative": 1e-3, "softmax_adjust": 1e-2})
+        T.append({"kind": "flow", "flow": flow, "dim": 2, "cond_dim": 2, "layers": 2, "invert": True, "transformer": "affine", "width": 3, "depth": 1})
+    for ns in (None, 0.1):
+        T.append({"kind": "planar", "dim": 2, "cond_dim": None, "negative_slope": ns, "invert": True, "width": 2, "depth": 0})
+        T.append({"kind": "flow", "flow": "planar", "dim": 2, "cond_dim": None, "layers": 2, "invert": True, "negative_slope": ns, "width": 2, "depth": 0})
+    for iv in ([-1.0, 1.0], [-0.5, 0.5]):
+        T.append({"kind": "scan_vspline", "dim": 2, "knots": 3, "interval": iv, "min_derivative": 1e-3, "softmax_adjust": 1e-2, "layers": 2, "invert": True})
+    for act in (None, "leaky1", "leaky8", "tanh", "callable"):
+        T.append({"kind": "bnaf", "dim": 2, "cond_dim": None, "mode": "single", "layers": 1, "invert": True, "depth": 1, "block_dim": 2, "activation": act})
+    T.append({"kind": "bnaf", "dim": 2, "cond_dim": None, "mode": "scan", "layers": 2, "invert": True, "depth": 2, "block_dim": 2, "activation": None})
+    for mv in (1.0, 3.0, 8.0):
+        T.append({"kind": "tri_spline", "dim": 2, "cond_dim": None, "mode": "single", "layers": 1, "invert": True, "knots": 3, "tanh_max_val": mv})
+    T.append({"kind": "tri_spline", "dim": 2, "cond_dim": None, "mode": "scan", "layers": 2, "invert": True, "knots": 3, "tanh_max_val": 3.0})
+    for name in ("Normal", "StudentT", "Cauchy", "Laplace", "Logistic", "Gumbel", "MultivariateNormal", "VmapMixture", "MixShiftedLogNormal", "LogNormal", "Exponential", "Uniform"):
+        T.append({"kind": "named", "name": name, "dim": 2, "lo": 1e-2, "hi": 1e2})
+    return T
+
+
+def _c18_symbol_list():
+    syms = []
+    for s_ in SYMBOLS:
+        if s_ not in syms:
+            syms.append(s_)
+    # pad to whole buckets with the exact-boundary symbols (other knot indices / other coordinate)
+    pad = ["knot", "yknot", "lo", "hi", "knot", "yknot", "1", "-1", "max_val", "tanh_max_val", "knot", "yknot"]
+    K = K_BUCKET["C18"]
+    while len(syms) % K:
+        syms.append(pad[len(syms) % len(pad)])
+    return syms
+
+
+def c18_enum_size():
+    return len(c18_templates()) * len(_c18_symbol_list())
+
+
+def _c18_enumerated_world(seed, idx):
+    """World idx of C18's enumerated block: template idx // S, boundary symbol idx % S — one fault row whose chosen
+    coordinate sits on that value, parameters at initialisation (even idx) or perturbed (odd idx)."""
+    syms = _c18_symbol_list()
+    t, k = divmod(idx, len(syms))
+    base = copy.deepcopy(c18_templates()[t])
+    r = rng_for(seed, "C18", "thorough", "enum", idx)
+    rt = rng_for(seed, "C18", "thorough", "enum-template", t)
+    w = {"engine": "B", "prop": "C18", "model": _fill_values(base, r), "freeze": [], "loop": "data", "loss": "mle", "opt": rt.choice(["sgd", "adam"]),
+         "lr": 1e-3, "idx": idx, "enumerated": [t, syms[k]], "data": {"n": 12, "seed": r.randrange(2**31)}, "batch_size": 4, "val_prop": 0.25,
+         "key_seed": r.randrange(2**31), "return_best": False, "show_progress": False, "key_style": "legacy", "max_epochs": 1, "max_patience": 5, "faults": []}
+    dim = w["model"].get("dim", 1) or 1
+    if idx % 2 and base["kind"] != "named":
+        w["init_perturb"] = {"seed": r.randrange(2**31), "scale": r.choice([0.5, 2.0, 5.0])}
+    rows = [{"pos": r.randrange(12), "coords": [r.randrange(dim)], "symbols": [syms[k]], "knot_index": r.randrange(8)}]
+    if r.random() < 0.3:  # the same value on every coordinate of another row
+        rows.append({"pos": r.randrange(12), "coords": list(range(dim)), "symbols": [syms[k]] * dim, "knot_index": r.randrange(8)})
+    w["data"]["fault_rows"] = rows
+    if base.get("name") in ("MixShiftedLogNormal", "LogNormal", "Exponential"):
+        w["data"]["source"] = "normal"
+        w["data"]["scale"] = 1.0
+    return w
+
+
 _C09_GRID = []
 
 
@@ -582,6 +667,13 @@ def world_for(prop, tier, seed, idx):
         n_enum = len(c09_grid()) * K_BUCKET["C09"]
         if idx < n_enum:
             return _c09_enumerated_world(seed, idx)
+        w = _world_for_seeded(prop, tier, seed, idx - n_enum)
+        w["idx"] = idx
+        return w
+    if prop == "C18" and tier == "thorough":
+        n_enum = c18_enum_size()
+        if idx < n_enum:
+            return _c18_enumerated_world(seed, idx)
         w = _world_for_seeded(prop, tier, seed, idx - n_enum)
         w["idx"] = idx
         return w
